@@ -1012,6 +1012,10 @@ impl CxxCodeBodyTranslator {
                         "false".to_owned()
                     }
                 }
+                // -2147483648 would be a long (or long long) in C++
+                ConstantValue::Integer(v) if *v == i64::from(i32::MIN) => {
+                    "(-2147483647 - 1)".to_owned()
+                }
                 ConstantValue::Integer(v) => v.to_string(),
                 ConstantValue::Float(v) => format!("{v:e}"),
                 ConstantValue::CString(v) => format_string_literal(v),
